@@ -360,9 +360,11 @@ fn add_items_from_ast(ast: &Rc<FileAst>, output: &mut String) {
                     ImportKind::As(alias) => {
                         // the generated code names types without their qualifier, so the
                         // module's items are brought into scope as well as the alias
+                        // (not `pub`: the crate root only sees the module through a private
+                        // `use generated::*`, which cannot be re-exported under a new name)
                         swrite!(
                             output,
-                            "#[allow(unused_imports)]\npub use crate::{} as {};\n",
+                            "#[allow(unused_imports)]\nuse crate::{} as {};\n",
                             module_name,
                             alias.v
                         );
